@@ -17,5 +17,25 @@ Tables ==
     contains |-> [a \in 1..64 |-> [e \in 1..8 |-> Member(FromSet(SetOfMask(a - 1, 6)), e - 2)]],
     first_following |-> [a \in 1..64 |-> [e \in 1..8 |-> FirstFollowing(FromSet(SetOfMask(a - 1, 6)), e - 2)]] ]
 
+\* Long operands chosen after the structure of the merge (SortedVec.tla: the recursion pops one value or appends / prepends a whole
+\* operand): three consecutive runs of integers, each owned by the left operand, the right one or both, with lengths around the
+\* powers of two (an implementation that moves runs, probes by doubling or bounds its recursion depth has its edges there), and
+\* value-by-value interleavings of depth 8 .. 100 above a lower part that is shared, one-sided or empty.
+RunLens == <<1, 16, 17, 32, 64, 65>>
+Owners  == <<"a", "b", "ab">>
+Digit(k, i) == (k \div (18 ^ i)) % 18
+SegOwner(k, i) == Owners[(Digit(k, i) % 3) + 1]
+SegLen(k, i) == RunLens[(Digit(k, i) \div 3) + 1]
+SegStart(k, i) == 1 + (IF i > 0 THEN SegLen(k, 0) ELSE 0) + (IF i > 1 THEN SegLen(k, 1) ELSE 0)
+Side(k, who) == UNION {IF SegOwner(k, i) \in who THEN SegStart(k, i)..(SegStart(k, i) + SegLen(k, i) - 1) ELSE {} : i \in 0..2}
+RunCase(k) == [a |-> FromSet(Side(k, {"a", "ab"})), b |-> FromSet(Side(k, {"b", "ab"})), u |-> FromSet(Side(k, {"a", "b", "ab"}))]
+Depths == <<8, 31, 63, 64, 65, 70, 100>>
+Lows   == <<[a |-> {}, b |-> {}], [a |-> {5}, b |-> {5}], [a |-> {1, 5, 9}, b |-> {3, 5, 7}], [a |-> {2, 4}, b |-> {}], [a |-> {1, 2, 3}, b |-> {1, 2, 3}]>>
+ZipCase(d, l) == LET sa == Lows[l].a \cup {10 + 2 * i : i \in 1..Depths[d]}
+                     sb == Lows[l].b \cup {11 + 2 * i : i \in 1..Depths[d]}
+                 IN [a |-> FromSet(sa), b |-> FromSet(sb), u |-> FromSet(sa \cup sb)]
+Long == [k \in 1..(18 ^ 3) |-> RunCase(k - 1)] \o [j \in 1..35 |-> ZipCase(((j - 1) \div 5) + 1, ((j - 1) % 5) + 1)]
+
 ASSUME JsonSerialize(IOEnv.OUT, Tables)
+ASSUME JsonSerialize(IOEnv.OUT2, Long)
 =============================================================================
